@@ -469,7 +469,7 @@ func checkWSSeq(c *Ctx) {
 			return
 		}
 		val := core.Path(s.Val)
-		stores = append(stores, st{fv.Name(), val})
+		stores = append(stores, st{core.FieldVarName(fv), val})
 		if fv == structField(mw, "compress") {
 			compressClear = s
 		}
@@ -610,7 +610,7 @@ func checkWSHandshake(c *Ctx) {
 		n := 0
 		var mk ssa.Instruction
 		core.EachInstr(dial, func(in ssa.Instruction) {
-			if call, ok := in.(*ssa.Call); ok && call.Call.StaticCallee() != nil && call.Call.StaticCallee().Name() == "newConn" {
+			if call, ok := in.(*ssa.Call); ok && call.Call.StaticCallee() != nil && core.FnName(call.Call.StaticCallee()) == "newConn" {
 				mk = in
 			}
 		})
